@@ -100,10 +100,14 @@ func NewKernel(c *Ctx, relPkg, pkgName string, harnesses ...string) (*Kernel, er
 	}
 	var sol *smt.Solver
 	var mkSolver func() *smt.Solver
-	if kind == "portfolio" {
+	if kind == "portfolio" || strings.HasPrefix(kind, "race:") {
 		k.wins = map[string]int{}
+		members := []string{"z3", "z3-new", "cvc5"}
+		if strings.HasPrefix(kind, "race:") {
+			members = strings.Split(strings.TrimPrefix(kind, "race:"), "+")
+		}
 		mkSolver = func() *smt.Solver {
-			s := smt.NewPortfolio([]string{"z3", "z3-new", "cvc5"}, 60000)
+			s := smt.NewPortfolio(members, 60000)
 			s.Prelude = symx.SMTPrelude()
 			k.mu.Lock()
 			k.solvers = append(k.solvers, s)
@@ -124,7 +128,13 @@ func NewKernel(c *Ctx, relPkg, pkgName string, harnesses ...string) (*Kernel, er
 	k.E.Solver = sol
 	if mkSolver != nil {
 		k.E.NewSolver = mkSolver
-		k.E.Workers = 5
+		k.E.Workers = 16 / len(strings.Split(strings.TrimPrefix(kind, "race:"), "+"))
+		if kind == "portfolio" {
+			k.E.Workers = 5
+		}
+		if v := os.Getenv("VERIF_WORKERS"); v != "" {
+			fmt.Sscan(v, &k.E.Workers)
+		}
 	}
 	k.E.AllowPkg = allowRepo
 	k.E.InitPkgs = []*ssa.Package{k.Pkg}
@@ -141,7 +151,7 @@ func (k *Kernel) Close(c *Ctx) {
 			}
 		}
 		c.Coverage["portfolio_wins"] = k.wins
-	} else if k.E != nil && k.E.Solver != nil {
+	} else if k.E != nil && k.E.Solver != nil && !k.solverClosed() {
 		c.Solver.Add(k.E.Solver.Stats)
 		k.E.Solver.Close()
 	}
@@ -203,3 +213,5 @@ func engineCoverage(c *Ctx, e *symx.Engine, prefix string) {
 	sortStrings(fns)
 	c.Coverage[prefix+"functions_encoded"] = fns
 }
+
+func (k *Kernel) solverClosed() bool { return k.E.Solver == nil }
